@@ -793,13 +793,19 @@ class FnTr:
         body_tr.fresh = after_tr.fresh
         body_tr.on_break = None
         after_def = []
+        # `prune_loop_params`: a variable in scope that neither the body nor the code after the loop reads is not handed to
+        # the auxiliary definitions (an extra local in front of the loop does not change their signatures); the unchanged
+        # variables are marked in the recursive calls and the marks resolved once both texts are known
+        prune = bool(self.u.hooks.get('prune_loop_params'))
+        mark = (lambda t: '\x01' + t + '\x02') if prune else (lambda t: t)
         if has_break:
             def leave(tr):
-                return ' '.join([f'{loop}.after'] + ctx + [tr.env[n].text for n in fixed] + [_paren(tr.env[n].text) for n in state])
+                return ' '.join([f'{loop}.after'] + ctx + [mark(tr.env[n].text) for n in fixed] + [_paren(tr.env[n].text) for n in state])
             after_def = [f'/-- the code after the `for {ast.unparse(s.target)} in {ast.unparse(s.iter)}` loop of `{self.inst.qual}`'
                          ' (reached when the list is exhausted and by `break`), from the state ' + (', '.join(state) or 'none') + ' -/',
                          f'def {loop}.after ' + ' '.join([f'({n} : {t})' for n, t in self.u.ctx_params] +
-                                                        [f'({n} : {lean_type(t)})' for n, t in fixed_b + state_b]) +
+                                                        [mark(f'({n} : {lean_type(t)})') for n, t in fixed_b] +
+                                                        [f'({n} : {lean_type(t)})' for n, t in state_b]) +
                          f' : {lean_type(self.inst.ret)} :=', _indent(after), '']
             after = leave(aux)
             body_tr.on_break = leave
@@ -816,12 +822,25 @@ class FnTr:
                 body_tr.env[n] = Val(proj, t, path=n)
 
         def next_iteration(tr):
-            args = [tr.env[n].text for n in fixed] + [items] + [_paren(tr.env[n].text) for n in state]
+            args = [mark(tr.env[n].text) for n in fixed] + [items] + [_paren(tr.env[n].text) for n in state]
             return ' '.join([loop] + ctx + args)
         body_tr.on_fall = next_iteration
         body = body_tr.block(list(s.body))
         self.fresh = body_tr.fresh
-        binders = ' '.join([f'({n} : {t})' for n, t in self.u.ctx_params] + [f'({n} : {lean_type(t)})' for n, t in fixed_b])
+        binders = ' '.join([f'({n} : {t})' for n, t in self.u.ctx_params] + [mark(f'({n} : {lean_type(t)})') for n, t in fixed_b])
+        if prune:
+            import re as _re
+            seen = _re.sub('\x01[^\x02]*\x02', '', '\n'.join(after_def + [after, body]))
+            dead = [i for i, (nm, _t) in enumerate(fixed_b)
+                    if not _re.search(r"(?<![\w.'])" + _re.escape(nm) + r"(?![\w'])", seen)]
+
+            def resolve(text):
+                for i in dead:
+                    nm, t = fixed_b[i]
+                    text = text.replace(' \x01' + nm + '\x02', '').replace(' \x01' + f'({nm} : {lean_type(t)})' + '\x02', '')
+                return text.replace('\x01', '').replace('\x02', '')
+            after_def, after, body, binders = [resolve(x) for x in after_def], resolve(after), resolve(body), resolve(binders)
+            fixed = [n for i, n in enumerate(fixed) if i not in dead]
         sig = ' → '.join([f'List {_paren(lean_type(elem))}'] + [lean_type(t) for _n, t in state_b] + [lean_type(self.inst.ret)])
         pat_state = ''.join(f', {n}' for n, _t in state_b)
         self.aux[slot] = ('\n'.join(after_def + [
@@ -1048,6 +1067,9 @@ class FnTr:
             raise Unsupported(f'`{self.inst.qual}`: subscript `{ast.unparse(e)}` of {v.typ}')
         if isinstance(e, (ast.ListComp, ast.GeneratorExp)) and self.is_map_comp(e):
             return self.map_comp(e)
+        if isinstance(e, ast.SetComp) and self.is_map_comp(e):
+            v = self.map_comp(e)                      # `{f(x) for x in xs}` is `set(f(x) for x in xs)`
+            return Val(f'(GV.Obj.dedupBy {self.mem_fn(v.typ[5:])} {_paren(v.text)})', 'Set ' + v.typ[5:])
         if isinstance(e, ast.ListComp):
             return self.list_comp(e)
         if isinstance(e, ast.Call):
@@ -1143,7 +1165,7 @@ class FnTr:
                 r = hook(self, a, b)
                 if r is not None:
                     return r if isinstance(op, ast.Eq) else Val(f'(!{r.text})', 'Bool')
-            if a.typ == b.typ and self.eq_fn(a.typ, probe=True):
+            if _same_type(a.typ, b.typ) and self.eq_fn(a.typ, probe=True):
                 r = Val(f'({self.eq_fn(a.typ)} {_paren(a.text)} {_paren(b.text)})', 'Bool')
                 return r if isinstance(op, ast.Eq) else Val(f'(!{r.text})', 'Bool')
         raise Unsupported(f'comparison {a.typ} {type(op).__name__} {b.typ}')
@@ -1375,7 +1397,7 @@ class FnTr:
             return False
         t = g[0].target
         if isinstance(t, ast.Name):
-            return not (isinstance(e.elt, ast.Name) and e.elt.id == t.id) or isinstance(e, ast.GeneratorExp)
+            return not (isinstance(e.elt, ast.Name) and e.elt.id == t.id) or isinstance(e, (ast.GeneratorExp, ast.SetComp))
         return isinstance(t, ast.Tuple) and len(t.elts) == 2 and all(isinstance(x, ast.Name) for x in t.elts)
 
     def map_comp(self, e):
@@ -1527,6 +1549,13 @@ def _has_break(stmts):
             if _has_break([m for m in getattr(n, field, []) if isinstance(m, ast.stmt)]):
                 return True
     return False
+
+
+def _same_type(a, b):
+    """equal type tags, where a pair of two `T` may be spelled `Pair T` (a tuple display) or `Prod T T` (an item of `zip`)"""
+    import re
+    norm = lambda t: re.sub(r'Pair (\w+)', r'Prod \1 \1', t)
+    return norm(a) == norm(b)
 
 
 def _int_const(n):
